@@ -20,6 +20,7 @@ mod c13;
 mod c14;
 mod c15;
 mod c17;
+mod c19;
 mod c16;
 mod c18;
 pub mod util;
@@ -88,6 +89,7 @@ fn run_lines() {
             "restart" => c13::restart(&mut t),
             "schema" => c15::schema(&mut t),
             "authz" => c17::authz(&mut t),
+            "backup" => c19::backup(&mut t),
             "ro" => c17::ro(&mut t),
             "authzdbg" => c17::authzdbg(&mut t),
             "ltx" => c07::ltx(&mut t),
